@@ -640,3 +640,27 @@ _ADD10 = {
 for _pid, (_rules, _text) in _ADD10.items():
     PROPS[_pid]["rules"] += _rules
     PROPS[_pid]["explanation"] += _text
+
+# ---------------------------------------------------------------------------------------------------------------------
+# round 11
+ROUND11_TEXT = (" DEADCOPY (verdict for the files in the directories of the anchor files): no memcpy / memmove / memset has a length the interval analysis pins to zero in every "
+                "state that reaches it. DETACHDEAD: where the answer of `b->detach(b, n)` is not assigned to b itself, b is not used again on the paths where the call delivered "
+                "a buffer. PARAMCLASS also records the cuts of integer members reached through pointer parameters (`path->len`) and bare truthiness tests. MUSTCHECK also counts "
+                "callees without a failing return of their own whose result some function of the unchanged tree tests below zero, and a call that is itself the operand of a branch counts as used.")
+for _pid, _spec in PROPS.items():
+    _spec["rules"].append({"run": rules_path.run_deadcopy, "floor": 100, "scope": "anchor-dirs"})
+    _spec["rules"].append({"run": rules_ref.run_detachdead, "floor": 10, "scope": "anchor-dirs"})
+    _spec["explanation"] += ROUND11_TEXT
+_IDENT_RULES = [{"run": rules_lin.run_linident, "floor": 18, "ctx": {"files": ["mptcore/misc/identifier.c"]}},
+                {"run": rules_ident.run_inlinefit, "floor": 5}, {"run": rules_ident.run_identoverlay, "floor": 15}]
+_ADD11 = {
+    "C09": (list(_IDENT_RULES), " The names of the parsed tree are identifiers: LINIDENT, INLINEFIT and IDENTOVERLAY (see C16) over mptcore/misc/identifier.c."),
+    "C14": (list(_IDENT_RULES), " Clones carry the names of their originals through mpt_identifier_copy(): LINIDENT, INLINEFIT and IDENTOVERLAY (see C16) over mptcore/misc/identifier.c."),
+    "C11": ([{"run": rules_path.run_readbase, "floor": 2, "use_anchor_files": True}], " READBASE (see C17) for the hash dispatch."),
+    "C17": ([{"run": rules_path.run_readbase, "floor": 20, "scope": "anchor-dirs"}],
+            " READBASE: behind mpt_message_read(&M, n, buf) no call is handed `M.base` together with the same length n (the bytes that were read are in buf, the cursor stands behind them); verdict for the directories of the anchor files, which include the hash dispatch."),
+}
+for _pid, (_rules, _text) in _ADD11.items():
+    PROPS[_pid]["rules"] += _rules
+    PROPS[_pid]["explanation"] += _text
+PROPS["C17"].setdefault("extra_scope_files", []).append("mptcore/event/dispatch_hash.c")      # gathers a fragmented command with mpt_message_read()
